@@ -11,7 +11,7 @@ use blots_core::values::SerializableValue;
 use proptest::prelude::*;
 use serde::{Deserialize, Serialize};
 
-pub const RULE: &str = "paths: finite doubles (uniform bit patterns, boundary pool, powers of 2 and 10 +-1 ulp, integers k +-1 ulp, the 1e15 / 1e21 printing thresholds, 2^53 neighbourhood, subnormals, f64::MAX, -0) through to_number(to_string(x)), JSON output->input, closure capture -> emitted source -> reload -> call, and literal -> format_expr (several widths) -> parse; all compared by bit pattern. literals: spellings of the exact decimal value of a double (underscore groups, shifted point with compensating exponent, e/E, signed exponent, leading dot, leading zeros, leading +), exact midpoints between adjacent doubles and midpoint +- tiny, and 0x / 0b literals with underscores, compared with the correctly rounded reference double (computed by construction with exact decimal arithmetic / u128). Non-trivial = the double is not an integer below 2^53, or the spelling uses >= 2 optional features; distinct by bit pattern / literal text.";
+pub const RULE: &str = "paths: finite doubles (uniform bit patterns, boundary pool, powers of 2 and 10 +-1 ulp, integers k +-1 ulp, the 1e15 / 1e21 printing thresholds, 2^53 neighbourhood, subnormals, f64::MAX, -0) through to_number(to_string(x)), JSON output->input, closure capture -> emitted source -> reload -> call, and literal -> format_expr (several widths) -> parse; all compared by bit pattern. literals: spellings of the exact decimal value of a double (underscore groups, shifted point with compensating exponent, e/E, signed exponent, leading dot, leading zeros, leading +), exact midpoints between adjacent doubles and midpoint +- tiny, and 0x / 0b literals with underscores, evaluated as literals and read by to_number, compared with the correctly rounded reference double (computed by construction with exact decimal arithmetic / u128). Non-trivial = the double is not an integer below 2^53, or the spelling uses >= 2 optional features; distinct by bit pattern / literal text.";
 pub const ASSUMPTIONS: &[&str] = &[
     "Rust's exact float formatting and the harness decimal arithmetic are the trusted base for reference values",
     "radix literals >= 2^63 may be rejected with an error (the implementation parses through i64) but must never evaluate to a wrong value",
@@ -151,7 +151,20 @@ impl Check for Numbers {
                         expect.0,
                         expect.0.to_bits()
                     ),
+                }?;
+                // the same decimal text read by to_number (plain decimal / exponent spellings)
+                if !text.contains('_') && !text.contains("0x") && !text.contains("0b") && !text.starts_with('+') && !text.starts_with('.') {
+                    sess.bind("t", &MV::Str(text.clone()));
+                    match sess.obs("to_number(t)") {
+                        Ok(MV::Num(F(y))) if y.to_bits() == expect.0.to_bits() || (y == 0.0 && expect.0 == 0.0) => {}
+                        // to_number may be stricter than the literal grammar about what it accepts
+                        Err(_) => {
+                            ctx.label("to_number:rejects-spelling");
+                        }
+                        other => fail!(format!("to_number:{}", literal_class(text)), "to_number({:?}) = {:?}; correctly rounded value is {:e} [bits {:016x}]", short(text), other, expect.0, expect.0.to_bits()),
+                    }
                 }
+                Ok(())
             }
             Case::LiteralOrError { text, expect } => {
                 ctx.label("radix-literal>=2^63");
